@@ -2,7 +2,7 @@ SPECIFICATION BSpec
 CONSTANTS
   System <- SysC20V
   Alphabet <- AlphaC20V
-  MaxLen = 10
+  MaxLen = 8
   Lint = TRUE
   SortVariant = "code"
   StaleOK = TRUE
